@@ -35,6 +35,10 @@ SPECIFICATION TraceSpec
 POSTCONDITION TraceAccepted
 """
 
+# the machine is shared: keep the JVM heaps small (TLC keeps its state queue on disk; the default heap is 1/4 of the RAM)
+JVM_MC = {"_JAVA_OPTIONS": "-Xmx4g"}
+JVM_TRACE = {"_JAVA_OPTIONS": "-Xmx2g"}
+
 EVEN_KERNELS = [(2, 2), (3, 4), (4, 3), (1, 2), (2, 5)]
 
 
@@ -83,7 +87,7 @@ def enumerate_instances(ctx, fams, variants=("pos", "signed"), even=EVEN_KERNELS
     defs = ("MCFamilies == {" + ", ".join(tup(f) for f in fams) + "}\n"
             "MCVariants == {" + ", ".join(f'"{v}"' for v in variants) + "}\n"
             "MCEven == {" + ", ".join(tup(e) for e in even) + "}")
-    res = ctx.tlc("Convolution", MC_CFG, defs=defs, tag=tag, timeout=timeout)
+    res = ctx.tlc("Convolution", MC_CFG, defs=defs, tag=tag, timeout=timeout, env=JVM_MC)
     insts = res.by_kind("inst")
     odd = expected_instances(fams, len(variants), 0)
     want = odd + len(even) * len(variants)
@@ -383,7 +387,7 @@ def validate(ctx, records, insts, tag, chunk=2000):
 
     def one(args):
         k, ch = args
-        res, rej = ctx.validate_trace("Trace_Convolution", TRACE_CFG, ch, tag=f"{tag}-{k}", timeout=2400)
+        res, rej = ctx.validate_trace("Trace_Convolution", TRACE_CFG, ch, tag=f"{tag}-{k}", timeout=2400, env=JVM_TRACE)
         return rej
 
     with cf.ThreadPoolExecutor(max_workers=min(16, len(chunks) or 1)) as ex:
